@@ -8,6 +8,9 @@
 #include <string>
 #include <map>
 #include <type_traits>
+#ifndef VERIF_TAPE_FREE_BOOL
+#define VERIF_TAPE_FREE_BOOL 0
+#endif
 #ifndef VERIF_TAPE_N
 #define VERIF_TAPE_N 64
 #endif
@@ -47,7 +50,7 @@ public:
     __verif_check(verif_tape_rpos < verif_tape_wpos);
 #ifdef VERIF_TAPE_FREE
     // free-tape mode (idempotence harnesses): an entry that nobody wrote (tag 0) takes the type of its first reader
-    if (verif_tape_tag[verif_tape_rpos] == 0) verif_tape_tag[verif_tape_rpos] = verif_tag<T>::v;
+    if (verif_tape_tag[verif_tape_rpos] == 0) { verif_tape_tag[verif_tape_rpos] = verif_tag<T>::v; if (verif_tag<T>::v == 2) verif_tape_u[verif_tape_rpos] = VERIF_TAPE_FREE_BOOL; }   // free bool entries take the value chosen by the harness
 #endif
     __verif_check(verif_tape_tag[verif_tape_rpos] == verif_tag<T>::v);       // same type, same order as written
     T r = get((T *)0, verif_tape_rpos);
